@@ -26,8 +26,10 @@ RULE = ("Each run: a history (8-60 steps) over {frame arrival causing a "
         "distinct = distinct event-log digest.")
 ASSUMPTIONS = [
   "buffer ids are opaque: the model never predicts which id is handed out",
-  "what happens to the buffered packet of a flow_mod that is rejected or "
-  "that deletes is unspecified; the model follows the implementation there",
+  "what happens to the buffered packet of a flow_mod that deletes is "
+  "unspecified (the model follows the implementation there); a flow_mod "
+  "that is refused with an error has told the controller that nothing "
+  "happened, so the packet it named stays held",
 ]
 REAL = ["pox.datapaths.switch.SoftwareSwitch (_buffer_packet, "
         "_process_actions_for_packet_from_buffer, send_packet_in, "
@@ -36,7 +38,8 @@ REAL = ["pox.datapaths.switch.SoftwareSwitch (_buffer_packet, "
 STUBBED = ["socket/select/time/pinger (simkit)", "controller peer (scripted)",
            "hosts (frames injected)"]
 EXPECT_PROBES = ["pi_buffered", "pi_unbuffered", "pi_truncated",
-                 "buffer_used", "buffer_bogus", "buffer_use_refused"]
+                 "buffer_used", "buffer_bogus", "buffer_use_refused",
+                 "refused_flow_mod_names_held_buffer"]
 
 
 def _after_controller(r, nports):
@@ -71,7 +74,7 @@ def _after_controller(r, nports):
 def gen_plan(seed, tier):
   r = Rng(seed)
   cfg = G.sw_cfg(r, max_buffers=r.pick([0, 1, 2, 3, 4]),
-                 max_entries=0x7fffffff,
+                 max_entries=r.pick([0x7fffffff, 0x7fffffff, 1, 2]),
                  miss_send_len=r.pick([0, 14, 64, 128, 1500]))
   nports = cfg["nports"]
   frames = [(G.gen_frame(r, rich=r.chance(0.5)), r.randint(1, nports))
@@ -121,10 +124,15 @@ def gen_plan(seed, tier):
       key = G.frame_key(fs, port)
       steps.append({"op": "flow_mod",
                     "m": G.match_from_key(key, r, keep=0.5),
-                    "cmd": r.pick([W.FC_ADD, W.FC_ADD, W.FC_MODIFY]),
+                    "cmd": r.pick([W.FC_ADD, W.FC_ADD, W.FC_MODIFY,
+                                   W.FC_MODIFY_STRICT]),
                     "prio": r.pick([20, 30]),
                     "acts": G.gen_actions(r, nports), "cookie": i,
-                    "idle": 0, "hard": 0, "flags": 0,
+                    # (overlap check / emergency flag: ways for the switch
+                    # to refuse the entry; the packet then stays held)
+                    "idle": 0, "hard": 0,
+                    "flags": r.pick([0, 0, 0, W.FF_CHECK_OVERLAP,
+                                     W.FF_CHECK_OVERLAP, W.FF_EMERG]),
                     "buffer": r.wpick([(5, "last"), (2, "first"),
                                        (2, "used"), (1, 77)])})
     elif k == "port_mod":
